@@ -14,6 +14,8 @@ func main() {
 	switch os.Args[1] {
 	case "run":
 		runOps(os.Args[2], os.Stdout)
+	case "scan":
+		scanMain(os.Args[2:])
 	case "gen":
 		genMain(os.Args[2:])
 	default:
